@@ -19,7 +19,7 @@ func init() {
 	Registry["C18"] = c18
 	Metas["C18"] = Meta{Level: "other", NeedCG: true, Ref: true,
 		Technique: "static analysis: reader/writer switch-table symmetry over the type-checked AST, bound-before-allocation on every decoder allocation, field-coverage and branch-freedom of the canonical sign-bytes constructors, JSON-key distinctness tables, registration tables; RLP by translation validation against go-ethereum v1.8.27",
-		Explain: "Round-trip equality for all values is a statement about run-time values and is NOT decided. Decided: (R1) in go-wire/reflect.go the reflect.Kind case sets of the main switch of readReflectBinary/writeReflectBinary and of readReflectJSON/writeReflectJSON are equal (no kind can be written that cannot be read back, and vice versa); (R2) every allocation in the go-wire decoders whose size comes from the input is edge-dominated by a sign test and, unless the caller passed the 'no limit' value 0, by the limit test over max(length, n+length) (overflow-safe), and reflective slice decoding allocates in chunks of a constant size; (R3) the canonical sign-bytes constructors are branch-free, read every statement field of Vote / Proposal / BlockID / PartSetHeader into a distinct canonical field, the canonical structs have pairwise distinct JSON keys and no '-' tags, the wrappers add chain_id and use different top-level keys for votes and proposals (together with injectivity of go-wire's JSON writer on these field types this is the injectivity argument); (R4) eth/rlp is token- and resolution-equivalent to the reference; (R5) every wire.RegisterInterface call assigns pairwise distinct, non-zero type bytes, and the WAL and reactor registrations cover the message types that are sent or logged. NOT decided: round-trip equality, 'never panics' beyond R2.",
+		Explain: "Round-trip equality for all values is a statement about run-time values and is (R6) decoded slice chunks are fresh per iteration; (R7) encoder buffers are owned by the call; (R8) the varint readers reject nothing on the decoded magnitude. NOT decided. Decided: (R1) in go-wire/reflect.go the reflect.Kind case sets of the main switch of readReflectBinary/writeReflectBinary and of readReflectJSON/writeReflectJSON are equal (no kind can be written that cannot be read back, and vice versa); (R2) every allocation in the go-wire decoders whose size comes from the input is edge-dominated by a sign test and, unless the caller passed the 'no limit' value 0, by the limit test over max(length, n+length) (overflow-safe), and reflective slice decoding allocates in chunks of a constant size; (R3) the canonical sign-bytes constructors are branch-free, read every statement field of Vote / Proposal / BlockID / PartSetHeader into a distinct canonical field, the canonical structs have pairwise distinct JSON keys and no '-' tags, the wrappers add chain_id and use different top-level keys for votes and proposals (together with injectivity of go-wire's JSON writer on these field types this is the injectivity argument); (R4) eth/rlp is token- and resolution-equivalent to the reference; (R5) every wire.RegisterInterface call assigns pairwise distinct, non-zero type bytes, and the WAL and reactor registrations cover the message types that are sent or logged. NOT decided: round-trip equality, 'never panics' beyond R2.",
 		Assume: []string{"go-wire's JSON writer is injective on int/byte/string/[]byte/struct fields", "reflect-based decoding follows the struct field order"},
 	}
 }
